@@ -1,17 +1,18 @@
 CONSTANTS
-  Ctxs = {1, 2, 3}
+  Ctxs = {1, 2}
   Names = {"x"}
   Boxes = {1}
   Vals = {0, 1}
   MaxStack = 1
-  MaxOps = 8
+  MaxOps = 6
   OpKinds = {"set", "push", "cleanup", "mgr_append", "mw", "mw_enter", "mw_close", "mw_abandon", "spawn"}
   Made0 <- NoneMade
-  Bug = "none"
+  Bug = "gc_cleanup"
   MwForms <- MwMake
   MCKinds <- EveryKindI
 INIT Init
 NEXT Next
+INVARIANT ReleaseIsLocalInv
 INVARIANT ViewEqualsIdeal
 INVARIANT ProxiesAgree
 INVARIANT ContentsAgree
